@@ -80,7 +80,7 @@ class C15(Property):
         quick = ctx.tier == "quick" and ctx.mode != "search"
         cases = gen_cases(ctx.rng, quick)
         lines, meta = [], []
-        for case, status, r in pmap(recov.run_case, cases, timeout=900, workers=6):
+        for case, status, r in recov.run_cases(cases, timeout=300, workers=6):
             replay = {"recovery": case}
             if status != "ok":
                 ctx.fail("run:" + status, f"{case['name']}: {str(r)[:300]}", replay)
